@@ -363,7 +363,29 @@ func init() {
 	reg(&opDef{name: "addoffset", tag: "C16",
 		gen: func(w *World, r *Rng) (Step, bool) {
 			var d int64
-			switch r.Intn(8) {
+			src := w.nonEmptySlot(r)
+			switch r.Intn(10) {
+			case 8, 9:
+				// align an extreme value of one of the source's chunks with a chunk edge: the
+				// split of that chunk then has a half that is empty, or holds a single value
+				if ks := w.B[src].M.Keys(); len(ks) > 0 && !w.giant(src) {
+					k := ks[r.Intn(len(ks))]
+					var lo, hi uint32
+					first := true
+					w.B[src].M.EachInChunk(k, func(x uint32) bool {
+						if first {
+							lo, first = x&0xFFFF, false
+						}
+						hi = x & 0xFFFF
+						return true
+					})
+					target := int64([]int{65535, 65536, 65534, 0}[r.Intn(4)])
+					ext := int64(hi)
+					if r.Chance(1, 3) {
+						ext = int64(lo)
+					}
+					d = target - ext + int64(r.Intn(3)-1)*65536
+				}
 			case 0:
 				d = int64(r.Intn(5)-2) * 65536
 			case 1:
@@ -390,7 +412,7 @@ func init() {
 			if d >= 0 && r.Chance(1, 4) {
 				variant = 1
 			}
-			return Step{S: []int{w.emptyishSlot(r), w.nonEmptySlot(r)}, A: []uint64{uint64(d), variant}}, true
+			return Step{S: []int{w.emptyishSlot(r), src}, A: []uint64{uint64(d), variant}}, true
 		},
 		valid: func(w *World, st *Step) bool {
 			if !slotsOK(w, st, 2, 2) {
